@@ -98,7 +98,9 @@ func checkC08(c *chk.Ctx) {
 	var order []*shape
 	files := map[int]*abs.File{}
 	schema := &abs.Schema{}
-	skey := func(cc ioCase) string { return cc.Verb + "|" + cc.Route + "|" + cc.Kind + "|" + hlevel(cc.Hmode) + "|" + cc.Hname }
+	skey := func(cc ioCase) string {
+		return cc.Verb + "|" + cc.Route + "|" + cc.Kind + "|" + hlevel(cc.Hmode) + "|" + cc.Hname
+	}
 	for _, cc := range cases {
 		k := skey(cc)
 		if _, ok := shapes[k]; ok {
